@@ -80,28 +80,7 @@ HostPort(s) ==
 
 ----------------------------------------------------------------------------
 (* HTTP-date (IMF-fixdate) by civil-date arithmetic, 0 <= t < 2^31 *)
-DayNames == <<<<83,117,110>>, <<77,111,110>>, <<84,117,101>>, <<87,101,100>>, <<84,104,117>>, <<70,114,105>>, <<83,97,116>>>>
-MonNames == <<<<74,97,110>>, <<70,101,98>>, <<77,97,114>>, <<65,112,114>>, <<77,97,121>>, <<74,117,110>>,
-              <<74,117,108>>, <<65,117,103>>, <<83,101,112>>, <<79,99,116>>, <<78,111,118>>, <<68,101,99>>>>
-W_GMT == <<32, 71, 77, 84>>
-Civil(days) ==
-    LET z == days + 719468
-        era == z \div 146097
-        doe == z - era * 146097
-        yoe == (doe - doe \div 1460 + doe \div 36524 - doe \div 146096) \div 365
-        doy == doe - (365 * yoe + yoe \div 4 - yoe \div 100)
-        mp == (5 * doy + 2) \div 153
-        d == doy - (153 * mp + 2) \div 5 + 1
-        m == IF mp < 10 THEN mp + 3 ELSE mp - 9
-        y == yoe + era * 400 + (IF m <= 2 THEN 1 ELSE 0) IN
-    [y |-> y, m |-> m, d |-> d]
-DaysFromCivil(y0, m, d) ==
-    LET y == IF m <= 2 THEN y0 - 1 ELSE y0
-        era == y \div 400
-        yoe == y - era * 400
-        doy == (153 * (IF m > 2 THEN m - 3 ELSE m + 9) + 2) \div 5 + d - 1
-        doe == yoe * 365 + yoe \div 4 - yoe \div 100 + doy IN
-    era * 146097 + doe - 719468
+(* DayNames, MonNames, Civil, DaysFromCivil are defined in TextBase *)
 HttpDate(t) ==
     LET days == t \div 86400
         sod == t % 86400
@@ -173,9 +152,12 @@ IsIPv6(s) ==
              l == GroupCount(SubSeq(s, 1, i - 1), FALSE)
              r == GroupCount(SubSeq(s, i + 2, Len(s)), TRUE) IN
          l >= 0 /\ r >= 0 /\ l + r <= 7
+(* a host name: letters, digits, '-' and '.', whose last label starts with a letter (so that the numeric
+   shorthands of inet_aton such as "0x1" or "127.1", whose status the property leaves open, are not host names) *)
 IsHostNameLike(s) == /\ s # <<>>
                      /\ All(s, LAMBDA c : IsAlnum(c) \/ c = 45 \/ c = 46)
-                     /\ \E i \in 1..Len(s) : IsAlpha(s[i])
+                     /\ LET labels == Split(s, 46) IN
+                        labels[Len(labels)] # <<>> /\ IsAlpha(labels[Len(labels)][1])
 ValidIp(s) == IF IsIPv4(s) \/ IsIPv6(s) THEN [v |-> TRUE]
               ELSE IF s = <<>> \/ 0 \in {s[i] : i \in 1..Len(s)} \/ IsHostNameLike(s) THEN [v |-> FALSE]
               ELSE [anybool |-> 1]                      \* other strings: the property leaves the answer open
